@@ -5,6 +5,7 @@ import (
 	"sync"
 
 	"github.com/tokenized/pkg/wire"
+	"github.com/tokenized/spynode/internal/state"
 	"github.com/tokenized/spynode/pkg/client"
 
 	"github.com/pkg/errors"
@@ -13,6 +14,7 @@ import (
 // TXHandler exists to handle the tx command.
 type TXHandler struct {
 	ready     StateReady
+	memPool   *state.MemPool
 	txChannel *TxChannel
 }
 
@@ -24,10 +26,11 @@ type TxData struct {
 }
 
 // NewTXHandler returns a new TXHandler with the given Config.
-func NewTXHandler(ready StateReady, txChannel *TxChannel) *TXHandler {
+func NewTXHandler(ready StateReady, memPool *state.MemPool, txChannel *TxChannel) *TXHandler {
 
 	result := TXHandler{
 		ready:     ready,
+		memPool:   memPool,
 		txChannel: txChannel,
 	}
 	return &result
@@ -46,6 +49,7 @@ func (handler *TXHandler) Handle(ctx context.Context, m wire.Message) ([]wire.Me
 		return nil, nil
 	}
 
+	handler.memPool.MarkReceived(ctx, *msg.TxHash())
 	handler.txChannel.Add(TxData{Msg: msg, Trusted: true, ConfirmedHeight: -1})
 	return nil, nil
 }
